@@ -28,7 +28,11 @@
            `(x is byte) is int` for an int local x (YLow: x mod 256, the low byte of its slot) and
            `(q is byte) is int` for a byte-sized local (YSlot; bool locals so far), anywhere an int
            operand may stand, including the push contexts (declaration initialiser, call / write
-           argument: push_expr's ByteToInt case).
+           argument: push_expr's ByteToInt case).  `OTrunc o` = `(o is byte) is int` for o an int
+           global or a computed value (o mod 256: the operand's bubble under byte access: StateByte
+           `lbs [r], var_g` / `lbs [r], r`, IndirectByte on a pushed word), anywhere except at the
+           root of a push context (not_trunc).  `OLit true c`: a char literal used as an int
+           (0 <= c <= 255), the value of `OLit false c`, spelled 'c' in the output.
    Source semantics (Codegen/LowerStmtProofs.v 1): callf d f args evs res -- function f called
            with d bytes of stack below its frame pointer emits evs and returns (CRet v) or faults
            (CFault FDivZero | FStackOverflow).  STACK ACCOUNTING: a function faults with
@@ -209,6 +213,24 @@ Example C01_program_byte_reads_vm_run_sat :
   end.
 Proof. exact program_byte_reads_vm_run_ex. Qed.
 
+(* satisfiability with byte casts of a global and of computed values (`(e is byte) is int` = e mod 256:
+   StateByte `lbs`, `lbs [r1], r1`, into a global `lbs [var_g], var_g`) and char literals used as ints
+     int g0 = 5;
+     empty @is_you(int a0) { writeln(((g0 is byte) is int) + 'a'); g0 = ((a0 + g0) is byte) is int; writeln(g0 - 'A');
+                             int y = 'z' - (((a0 * 2) is byte) is int); write((y + 'a') is byte); }
+   a0 = 300: "102\n", "-16\n", the byte 131 (as the real compiler's output does on the VM) *)
+Example C01_program_byte_casts_check_sat : prog_ok_b 2 1 0 tx_funs 1 = true.
+Proof. exact tx_ok. Qed.
+Example C01_program_byte_casts_sat : exists m',
+  HidV.Sphinx.Halts.runs (Machine.act 2 (code_of tx_prog) (zmem 0)) (mk 0 (tx_mem 300)) (map EOut tx_out300 ++ [EFlag 0]) (tnt tx_lib m').
+Proof. exact program_byte_casts_ex. Qed.
+Example C01_program_byte_casts_vm_run_sat :
+  match run_program 2 (tx_bytes 300) [] tx_prog [] mon_none 4000 with
+  | OAbsorbed evs _ _ => firstn 10 evs = map EOut tx_out300 ++ [EFlag 0]
+  | _ => False
+  end.
+Proof. exact program_byte_casts_vm_run_ex. Qed.
+
 Print Assumptions C01_program_lowering_correct.
 Print Assumptions C01_program_never_halts.
 Print Assumptions C01_program_labels_defined_once.
@@ -229,3 +251,6 @@ Print Assumptions C01_program_globals_vm_run_sat.
 Print Assumptions C01_program_byte_reads_check_sat.
 Print Assumptions C01_program_byte_reads_sat.
 Print Assumptions C01_program_byte_reads_vm_run_sat.
+Print Assumptions C01_program_byte_casts_check_sat.
+Print Assumptions C01_program_byte_casts_sat.
+Print Assumptions C01_program_byte_casts_vm_run_sat.
